@@ -898,6 +898,36 @@ func FamilyDefault(thorough bool) []*Conv {
 			})
 		}
 	}
+	// the method's pair spelled through defined pointer types (type PIn *In): the same method, the same rules
+	for i, upd := range []bool{false, true} {
+		lines := []string{"default PFXNew", "ignore Keep"}
+		if upd {
+			lines = append(lines, "default:update")
+		}
+		out = append(out, &Conv{
+			ID: fmt.Sprintf("default/defined_pointer_types_upd%v", upd), Family: "default", Format: []string{"struct", "function", "variable"}[i%3],
+			Params: "source PFXPIn", Results: "PFXPOut",
+			Decls:       "type PFXIn struct {\n\tName string\n\tAge int\n\tL []int\n}\ntype PFXOut struct {\n\tName string\n\tAge int\n\tL []int\n\tKeep string\n}\ntype PFXPIn *PFXIn\ntype PFXPOut *PFXOut\nfunc PFXNew() PFXPOut { return &PFXOut{} }\n",
+			MethodLines: lines,
+			Spec: &Spec{Update: &UpdateSpec{DefaultFn: "PFXNew", DefaultUpdate: upd}, Pairs: map[string]*PairSpec{
+				"PFXIn→PFXOut": {Fields: map[string]*FieldSpec{"Keep": {Ignore: true}}},
+			}},
+			Bounds: &Bounds{MaxSlice: 1, MaxMap: 1, RecDepth: 1},
+		})
+	}
+	// default on a T -> *U method whose pointee is a slice or a map: FUNC is called, a nil source returns its result
+	for i, pc := range []struct{ name, src, tgt string }{
+		{"slice", "[]PFXS", "*[]PFXT"}, {"map", "map[string]int", "*map[string]int"},
+	} {
+		out = append(out, &Conv{
+			ID: "default/value_to_pointer_of_" + pc.name, Family: "default", Format: []string{"struct", "function", "variable"}[i%3],
+			Params: "source " + pc.src, Results: pc.tgt,
+			Decls:       "type PFXS struct{ A int }\ntype PFXT struct{ A int }\n" + fmt.Sprintf("func PFXNew() %s { return nil }\n", pc.tgt),
+			MethodLines: []string{"default PFXNew"},
+			Spec:        &Spec{Update: &UpdateSpec{DefaultFn: "PFXNew"}},
+			Bounds:      &Bounds{MaxSlice: 1, MaxMap: 1, RecDepth: 1},
+		})
+	}
 	// default on a method whose pair is a map: the method starts from FUNC's result (FUNC is called, a nil source
 	// returns what it returned)
 	for i, mc := range []struct{ name, src, tgt string }{
